@@ -70,3 +70,27 @@ Example C09_without_placeholders_a_component_is_dropped :
   pen_components (add_placeholders true gs) [[2%Z]; [3%Z]] = [[2%Z]; [3%Z]].
 Proof. exact without_placeholders_a_component_is_dropped. Qed.
 Print Assumptions C09_without_placeholders_a_component_is_dropped.
+
+(* ---- per-master filter objects merged into one interpolatable filter (Filters/FilterMerge.v): decisions are taken jointly: one merged filter for all masters ---- *)
+From U2F Require Import Filters.FilterMerge Filters.FilterMergeProofs.
+
+Theorem C09_merged_filter_includes_the_union : forall h fs m g,
+  try_merge h fs = Some m ->
+  (merged_includes m g = true <-> exists f, In (Some f) fs /\ includes (pf_inc f) g = true).
+Proof. exact merged_include_is_the_union. Qed.
+Print Assumptions C09_merged_filter_includes_the_union.
+
+Theorem C09_glyph_excluded_by_every_master_is_left_alone : forall h fs m g,
+  try_merge h fs = Some m -> (forall f, In (Some f) fs -> includes (pf_inc f) g = false) -> merged_includes m g = false.
+Proof. exact excluded_everywhere_is_left_alone. Qed.
+Print Assumptions C09_glyph_excluded_by_every_master_is_left_alone.
+
+Theorem C09_master_without_the_filter_is_immaterial : forall h a b, try_merge h (a ++ None :: b) = try_merge h (a ++ b).
+Proof. exact missing_entry_anywhere. Qed.
+Print Assumptions C09_master_without_the_filter_is_immaterial.
+
+Theorem C09_merged_only_if_same_filter : forall h fs m f1 f2,
+  try_merge h fs = Some m -> In (Some f1) fs -> In (Some f2) fs ->
+  pf_class f1 = pf_class f2 /\ pf_options f1 = pf_options f2 /\ pf_pre f1 = pf_pre f2.
+Proof. exact merged_only_if_same. Qed.
+Print Assumptions C09_merged_only_if_same_filter.
